@@ -554,16 +554,18 @@ impl<S: Service, K: Kind> World<S, K> {
         for _ in 0..200 {
             let w = rng.below(100);
             let act = match w {
-                0..=3 if self.next_p <= MAX_PUB_INSTANCES => json!({"a": "create_pub", "p": self.next_p}),
-                4..=5 if !live_p.is_empty() && self.next_p <= MAX_PUB_INSTANCES => json!({"a": "drop_pub", "p": *rng.pick(&live_p)}),
-                6..=11 if self.next_s <= MAX_SUB_INSTANCES => {
+                0..=3 if self.next_p <= MAX_PUB_INSTANCES && (live_p.len() < q.maxpubs || rng.chance(1, 5)) => {
+                    json!({"a": "create_pub", "p": self.next_p})
+                }
+                4 if !live_p.is_empty() && self.next_p <= MAX_PUB_INSTANCES => json!({"a": "drop_pub", "p": *rng.pick(&live_p)}),
+                6..=11 if self.next_s <= MAX_SUB_INSTANCES && (live_s.len() + (self.abandoned as usize) < q.maxsubs || rng.chance(1, 5)) => {
                     // mostly legal arguments, sometimes one step beyond a limit
                     let buf = if rng.chance(1, 12) { q.bufmax + 1 } else { rng.range(1, q.bufmax as u64) as usize };
                     let maxreq = q.hist.min(buf);
                     let req = if rng.chance(1, 10) { maxreq + 1 } else { rng.range(0, maxreq as u64) as usize };
                     json!({"a": "create_sub", "s": self.next_s, "buf": buf, "req": req})
                 }
-                12..=14 if !live_s.is_empty() && self.next_s <= MAX_SUB_INSTANCES => {
+                12..=13 if !live_s.is_empty() && self.next_s <= MAX_SUB_INSTANCES => {
                     let mode = if rng.chance(1, 3) { "zombie" } else { "orderly" };
                     json!({"a": "drop_sub", "s": *rng.pick(&live_s), "mode": mode})
                 }
